@@ -164,7 +164,7 @@ PROPS['C10'] = {
 
 PROPS['C11'] = {
     'level': 'other',
-    'verus_units': ['helpers', 'bloom', 'cuckoo', 'quotient', 'hll', 'reservoir', 'lossy', 'cmsheap', 'cms'],
+    'verus_units': ['helpers', 'bloom', 'cuckoo', 'quotient', 'hll', 'reservoir', 'lossy', 'cmsheap', 'cms', 'tdigest'],
     'kani': {
         'quick': [
             ('helpers.rs', 'c11_all_zero_intvector_u64', 'complete in element_bits (1..=64); bounded(len<=4)'),
@@ -180,8 +180,8 @@ PROPS['C11'] = {
             ('helpers.rs', 'intvector_stub_set_get', 'bounded(2 blocks): cross-check of the Verus IntVector stub against succinct'),
         ],
     },
-    'explanation': 'allocation-size contracts proved by Verus for all sizes (all_zero_intvector block count = ceil(bits*len/W); Bloom m bits; Cuckoo/HLL/Reservoir table sizes; Quotient: 2^bq slots in three bit arrays + slots x remainder bits rounded up to one block, and no operation ever changes a length (same_shape); CMS: exactly w*d counters, add_n/merge/clear keep the length; growth bounded by representation invariants preserved by every verified operation; clear() keeps sizes). Bounded Kani harnesses cross-check the IntVector/table sizes on the real dependency and give the TDigest backlog bound (backlog <= max_backlog_size after every insert).',
-    'trusted_base': COMMON_TRUST + [INTVEC_TRUST, FBS_TRUST, 'Vec capacity slack and allocator behaviour (std)'],
+    'explanation': 'allocation-size contracts proved by Verus for all sizes (all_zero_intvector block count = ceil(bits*len/W); Bloom m bits; Cuckoo/HLL/Reservoir table sizes; Quotient: 2^bq slots in three bit arrays + slots x remainder bits rounded up to one block, and no operation ever changes a length (same_shape); CMS: exactly w*d counters, add_n/merge/clear keep the length; growth bounded by representation invariants preserved by every verified operation; clear() keeps sizes). TDigest: Verus proves on the real insert_weighted, for EVERY max_backlog_size, that the backlog never exceeds max_backlog_size and that one insert adds at most one entry (against an assumed merge contract which the bounded Kani merge harnesses cross-check). Bounded Kani harnesses cross-check the IntVector/table sizes on the real dependency and the TDigest backlog bound for max_backlog_size 0 and 1.',
+    'trusted_base': COMMON_TRUST + [INTVEC_TRUST, FBS_TRUST, 'Vec capacity slack and allocator behaviour (std)', 'unit tdigest: TDigestInner::merge() is an ASSUMED contract (backlog drained; n_samples, max_backlog_size, scale_function untouched; never more centroids than entries; non-empty input => non-empty output; empty backlog => no-op) -- iterator chains, sort_by and f64 are outside Verus; every clause is cross-checked on the real merge by the bounded Kani harnesses c16_td_merge_1_1 / c15_td_merge_empty_backlog_noop', 'unit tdigest R12: the float expressions `x * w`, `self.min.min(x)`, `self.max.max(x)` become contract-free stubs (arbitrary results), f64::INFINITY / NEG_INFINITY become opaque constants (only "clear() stores the same two values as new()" is used)'],
     'assumptions': [],
     'not_decided': ['TDigest centroid count O(delta) (same obstacle as C04)', 'LossyCounter: the closed-form O((1/eps) log(eps n)) bound (the pruning invariant that implies it -- every tracked entry has f + delta > completed windows -- IS proved)'],
 }
@@ -229,10 +229,10 @@ PROPS['C15'] = {
 
 PROPS['C16'] = {
     'level': 'other',
-    'verus_units': [],
+    'verus_units': ['tdigest'],
     'kani': {'quick': TD16_QUICK + TD16_MERGE, 'thorough': TD16_THOROUGH},
-    'explanation': 'insert_weighted: complete Kani harness over the full f64 domain (min/max exact, backlog entry exact, zero weight is a no-op); merge(): bounded harness with an ADVERSARIAL scale function (f/f_inv return arbitrary values on every call) showing count()/sum() conserved, means sorted, min/max untouched for every merge schedule.',
-    'trusted_base': COMMON_TRUST,
+    'explanation': 'insert_weighted: complete Kani harness over the full f64 domain (min/max exact, backlog entry exact, zero weight is a no-op); merge(): bounded harness with an ADVERSARIAL scale function (f/f_inv return arbitrary values on every call) showing count()/sum() conserved, means sorted, min/max untouched for every merge schedule. Verus (unit tdigest, unbounded): every insert_weighted counts exactly one sample (n_samples + 1, the value K2/K3 read), adds at most one entry, leaves the digest non-empty and the configuration untouched -- the structural half of the step; the float half stays with Kani.',
+    'trusted_base': COMMON_TRUST + ['unit tdigest: TDigestInner::merge() is an ASSUMED contract (backlog drained; n_samples, max_backlog_size, scale_function untouched; never more centroids than entries; non-empty input => non-empty output; empty backlog => no-op) -- iterator chains, sort_by and f64 are outside Verus; every clause is cross-checked on the real merge by the bounded Kani harnesses c16_td_merge_1_1 / c15_td_merge_empty_backlog_noop', 'unit tdigest R12: the float expressions `x * w`, `self.min.min(x)`, `self.max.max(x)` become contract-free stubs (arbitrary results), f64::INFINITY / NEG_INFINITY become opaque constants (only "clear() stores the same two values as new()" is used)'],
     'assumptions': ['merge harnesses: small integer weights/sums so f64 addition is exact; 1 centroid + 1 backlog entry with an adversarial scale function (quick), 1 centroid + 2 backlog entries with every fuse schedule (thorough)', '"to floating-point accumulation accuracy" for non-integer weights is assumed'],
     'not_decided': ['merge of more than three entries'],
 }
@@ -264,7 +264,7 @@ PROPS['C18'] = {
 
 PROPS['C19'] = {
     'level': 'other',
-    'verus_units': ['bloom', 'cuckoo', 'quotient', 'quotient_exact', 'cms', 'hll', 'reservoir', 'lossy', 'cmsheap'],
+    'verus_units': ['bloom', 'cuckoo', 'quotient', 'quotient_exact', 'cms', 'hll', 'reservoir', 'lossy', 'cmsheap', 'tdigest'],
     'kani': {'quick': TD19 + CMS_EMPTY + CMS_MERGE[:1] + HLL_MERGE + BLOOM_K[1:] + [('reservoirsampling.rs', 'c19_reservoir_clone_mid_fillup', 'bounded(k=4, one concrete history): clone during fill-up')] + [('filters__quotientfilter.rs', 'c19_qf_clear_is_fresh', 'bounded(4 slots, 16-bit remainders; arbitrary array contents)'),
                                                                   ('filters__cuckoofilter.rs', 'c19_cuckoo_clear_is_fresh', 'bounded(2x2 table)'),
                                                                   ('filters__bloomfilter.rs', 'c19_bloom_clone_independent', 'bounded(m=7, arbitrary bits): clone independence'),
@@ -272,8 +272,8 @@ PROPS['C19'] = {
                                                                   ('hyperloglog__mod.rs', 'c19_hll_clone_independent', 'bounded(b=4, arbitrary registers): clone independence'),
                                                                   ('tdigest.rs', 'c19_td_clone_independent', 'bounded(one concrete insert on either side): clone independence through the RefCell')],
              'thorough': [('filters__quotientfilter.rs', 'c19_qf_clone_independent', 'bounded(2 slots, every canonical state): clone independence')]},
-    'explanation': 'clear() contracts: every field that later behaviour reads equals the fresh value (hidden counters included) -- Verus for Bloom, Cuckoo, Quotient, CMS, HLL, Reservoir, LossyCounter, CMSHeap (unbounded: eight of nine structures); Kani for TDigest (n_samples!) (bounded, f64). is_empty exactness likewise. Equal states + deterministic code => equal continuations. clone(): bounded Kani harnesses (clone, mutate one side, the other keeps its state) for Bloom, CMS, HLL, TDigest, Reservoir (quick) and QuotientFilter (thorough).',
-    'trusted_base': COMMON_TRUST + [INTVEC_TRUST, FBS_TRUST],
+    'explanation': 'clear() contracts: every field that later behaviour reads equals the fresh value (hidden counters included) -- Verus for Bloom, Cuckoo, Quotient, CMS, HLL, Reservoir, LossyCounter, CMSHeap and TDigestInner (unbounded: all nine structures; TDigest: centroids and backlog empty, n_samples == 0, min/max the same two constants new() stores, configuration kept; is_empty exact incl. pending inserts); Kani for TDigest additionally through the public RefCell wrapper (bounded, f64). is_empty exactness likewise. Equal states + deterministic code => equal continuations. clone(): bounded Kani harnesses (clone, mutate one side, the other keeps its state) for Bloom, CMS, HLL, TDigest, Reservoir (quick) and QuotientFilter (thorough).',
+    'trusted_base': COMMON_TRUST + [INTVEC_TRUST, FBS_TRUST, 'unit tdigest: TDigestInner::merge() is an ASSUMED contract (backlog drained; n_samples, max_backlog_size, scale_function untouched; never more centroids than entries; non-empty input => non-empty output; empty backlog => no-op) -- iterator chains, sort_by and f64 are outside Verus; every clause is cross-checked on the real merge by the bounded Kani harnesses c16_td_merge_1_1 / c15_td_merge_empty_backlog_noop', 'unit tdigest R12: the float expressions `x * w`, `self.min.min(x)`, `self.max.max(x)` become contract-free stubs (arbitrary results), f64::INFINITY / NEG_INFINITY become opaque constants (only "clear() stores the same two values as new()" is used)'],
     'assumptions': ['clone(): all nine types are derive(Clone) over owned data (Rc<T> in CMSHeap is shared but T is never mutated); std Clone contracts assumed, not verified'],
     'not_decided': ['clone() independence beyond the bounded harnesses (derive(Clone) has no source text to put under a Verus contract); not exercised for Cuckoo, LossyCounter, CMSHeap'],
 }
@@ -315,8 +315,8 @@ MANIFEST_TEXT = {
     'C10': _mt('Unbounded Verus proof on the real CMSHeap::add: never panics, map and tree agree, exactly min(k, distinct seen) elements, all added, and the ranking invariant from which C10\'s ranking clause follows (lemma_ranking).',
                'Trusted: vstd HashMap specs, contract-only stubs for BTreeSet<TreeEntry> (ordered by (n, obj)) and for the sketch (estimate in [true, true+E]). No counterexample engine (Kani cannot run HashMap/BTreeSet).',
                'Verus contracts on the extracted real add()'),
-    'C11': _mt('Allocation-size contracts: Verus (unbounded) for all_zero_intvector, Bloom, Cuckoo, Quotient, CMS, HLL, Reservoir, CMSHeap (<= k) and the LossyCounter pruning clause; bounded Kani for the TDigest backlog and as cross-check of the stubs.',
-               'Trusted: IntVector/FixedBitSet/Vec allocation behaviour as stated in the stubs; TDigest centroid count, LossyCounter/CMSHeap growth not decided.',
+    'C11': _mt('Allocation-size contracts: Verus (unbounded) for all_zero_intvector, Bloom, Cuckoo, Quotient, CMS, HLL, Reservoir, CMSHeap (<= k) and the LossyCounter pruning clause; TDigest backlog <= max_backlog_size proved by Verus on the real insert_weighted for every configuration against an assumed merge contract (cross-checked by bounded Kani merge harnesses); bounded Kani as cross-check of the stubs.',
+               'Trusted: IntVector/FixedBitSet/Vec allocation behaviour as stated in the stubs; TDigest merge contract assumed (bounded cross-check); TDigest centroid count O(delta) and the closed-form LossyCounter bound not decided.',
                'Verus contracts on extracted real functions + Kani contract harnesses'),
     'C12': _mt('Unbounded Verus proofs for both filters: every failing insert/union leaves (cuckoo: restores) every array and the counter; Kani harnesses as counterexample engine.',
                'Trusted: IntVector/FixedBitSet stubs, hashing/RNG models; two canonical-layout-dependent panic sites of the quotient filter modelled as diverging.', 'Verus contracts on extracted real functions + Kani contract harnesses'),
@@ -326,14 +326,14 @@ MANIFEST_TEXT = {
                'Trusted: IntVector stub, hashing/RNG models, 64-bit usize.', 'Verus contracts on extracted real functions'),
     'C15': _mt('Bounded: bit-precise Kani harnesses on the real quantile/cdf from arbitrary well-formed small digests.',
                'Bounded value grid and centroid count; tolerance 1e-9.', 'Kani contract harnesses (bounded, IEEE f64 bit-precise)'),
-    'C16': _mt('insert_weighted complete over f64 (Kani, loop-free); merge() mass conservation bounded with adversarial scale function.',
-               'merge bounded to 1+1 centroids with exact small-integer arithmetic.', 'Kani contract harnesses (complete for insert, bounded for merge)'),
+    'C16': _mt('insert_weighted complete over f64 (Kani, loop-free) plus its structural half under a Verus contract (one sample per insert, at most one new entry, unbounded); merge() mass conservation bounded (three entries, every fuse schedule; adversarial scale function for 1+1).',
+               'merge bounded to three entries with exact small-integer arithmetic; Verus sees no float values (R12).', 'Kani contract harnesses (complete for insert, bounded for merge) + Verus contract on the extracted insert_weighted (structural clauses)'),
     'C17': _mt('Unbounded Verus proof of the register update rule for all b and all hashes, with rank defined verbatim from the property; commutation lemma.',
                'Trusted: vstd leading_zeros/Vec specs, cmp::max spec, hashing model.', 'Verus contracts on extracted real functions + Kani harnesses as counterexample engine'),
     'C18': _mt('Unbounded Verus proof of the add() step contract for all k, i and RNG outcomes + history lemma (distinct positions, prefix).',
                'Assumed: i+g no overflow (f64 gap length havoced), k*4 no overflow.', 'Verus contracts on extracted real functions'),
-    'C19': _mt('clear() == fresh on every field: Verus (5 structures, unbounded) + Kani (CMS, TDigest, Quotient; bounded). clone() not under contract.',
-               'Trusted: stubs; derive(Clone) semantics assumed; CMSHeap not covered.', 'Verus contracts + Kani contract harnesses'),
+    'C19': _mt('clear() == fresh on every field and is_empty exact: Verus contracts on the real clear/is_empty/constructors of all nine structures (unbounded; TDigestInner without float values); Kani harnesses (bounded) for TDigest through the real f64 code and for clone independence.',
+               'Trusted: stubs; derive(Clone) semantics assumed (clone independence is bounded Kani only, hence level other).', 'Verus contracts + Kani contract harnesses'),
     'C20': _mt('Verus proof that deserialisation yields Err or a sketch satisfying the constructor invariant for every document shape; serialize passes the three fields.',
                'Trusted: serde traits as arbitrary-valued stubs; data format round trip assumed.', 'Verus contracts on the extracted real visit_map/serialize'),
 }
